@@ -30,7 +30,7 @@ DIMS = dict(
 	k=[5] + [k for k in range(1, 33) if k != 5],
 	prefix=['AT', 'A', 'ATGAC'],
 	coll=COLLS,
-	container=['array', 'list', 'annotated-array', 'annotated-list'],
+	container=['array', 'list', 'annotated-array', 'annotated-list', 'list-mixed-element-dtypes'],
 	ids=['default', 'int64', 'ascii', 'unicode', 'bytes', 'uint8'],
 	meta=['none', 'unicode', 'nested-extra', 'empty-strings', 'mixed-empty'],
 	comp=['none', 'gzip0', 'gzip9', 'lzf', 'szip', 'gzip-default'],
@@ -161,7 +161,20 @@ def roundtrip(sh, v, d):
 	from gambit.sigs.base import SignatureArray, SignatureList, AnnotatedSignatures, dump_signatures, load_signatures
 	ks, arrs = make_sigs(v)
 	n = len(arrs)
-	base = SignatureArray(arrs, ks, dtype=ks.index_dtype) if 'array' in v['container'] else SignatureList(arrs, ks, dtype=ks.index_dtype)
+	if v['container'] == 'list-mixed-element-dtypes':
+		# a list-backed collection whose elements were produced by different code paths: empty signatures as default int64 arrays
+		# (np.arange(0)), one element in a signed type of the same width - values identical, collection dtype = the index dtype
+		mixed = []
+		for j, a in enumerate(arrs):
+			if len(a) == 0 and j > 0:
+				mixed.append(np.arange(0))
+			elif j % 2 == 1 and (len(a) == 0 or int(a.max()) < 2 ** (8 * a.dtype.itemsize - 1)):
+				mixed.append(a.astype(a.dtype.str.replace('u', 'i')))
+			else:
+				mixed.append(a)
+		base = SignatureList(mixed, ks, dtype=ks.index_dtype)
+	else:
+		base = SignatureArray(arrs, ks, dtype=ks.index_dtype) if 'array' in v['container'] else SignatureList(arrs, ks, dtype=ks.index_dtype)
 	ids = make_ids(v['ids'], n)
 	meta = make_meta(v['meta'])
 	annotated = v['container'].startswith('annotated') or ids is not None or v['meta'] != 'none'
